@@ -4,6 +4,11 @@ import json, os
 HERE = os.path.dirname(os.path.dirname(os.path.abspath(__file__)))
 ALL = ["C%02d" % i for i in range(1, 21)]
 CHECKS = {
+ "C08": dict(
+   technique="TLA+ spec Preproc.tla: TLC checks the implementation-shaped two-stack conditional machine against reference C-preprocessor semantics in every reachable state (named deviation must yield a counterexample); TLC-enumerated and simulated directive files replayed into preprocess_file and a live server, compared with the spec state; clang -E validates the spec",
+   text="Exhaustive files of <=3 lines over the full directive alphabet, exhaustive conditional skeletons of 6 (quick) / 7 lines, and simulated files of up to 14 lines with nested expressions and hostile macro bodies: liveness of every code line, final macro table, expanded text of macro uses (incl. one level of macro-in-macro rescan) and indexed declarations are compared with the spec.",
+   note="Trusted: TLC, renderer, clang only as validator of the reference layer. Not covered: function-like macros, arithmetic in #if, redefinition without #undef, stringify/paste.",
+   design="4/C08"),
  "C01": dict(
    technique="TLA+ spec LspServer.tla model-checked (3 named deviations must yield counterexamples); TLC-enumerated/simulated message sessions rendered and run through the real LangServer.run loop; recorded consume/write traces validated by TLC against LspServerTrace.tla",
    text="Every abstract session of <=3 (quick) / <=4 (thorough) messages over 5 request and 5 notification classes x ids, with and without initialize, plus simulated sessions of length 12, is run through the real connection class and server loop; TLC accepts a recorded trace only if each consumed request is followed by exactly one response with its id and an allowed tag before the next message is consumed, notifications write no response, and no input is left unread unless exit was consumed.",
